@@ -13,6 +13,10 @@ struct Bag {
     //[tag(json:"items")]
     map[string, Item] items;
     map[uint8, Color] colors;
+    //[tag(json:"list")]
+    //[tag(json:"listing,omitempty")]
+    //[tag(db:"list")]
+    //[tag(flag)]
     Item[] list;
     map[guid, map[string, Note[]]] deep;
     array[Color] cs;
